@@ -462,6 +462,11 @@ func checkCmd(args []string) {
 	for _, l := range violLines {
 		fmt.Println(l)
 	}
+	if len(names) == 0 || len(funcs) == 0 {
+		// vacuity guard: a property description that generates nothing decides nothing
+		fmt.Fprintf(os.Stderr, "property %s: no function under contract / no obligation generated (vacuous check)\n", *prop)
+		os.Exit(2)
+	}
 	os.Exit(exit)
 }
 
@@ -589,4 +594,43 @@ func dedupe(xs []string) []string {
 		}
 	}
 	return out
+}
+
+// replayCmd re-examines a violation file written by `gvc check`: it prints the failed
+// obligation with the verifier's output, re-runs the recorded SMT query, and re-runs the
+// registered replay of that obligation against the real code in /repo.
+// Exit status: 1 = the real code fails (replay confirmed), 0 = no failing input reproduced.
+func replayCmd(args []string) {
+	if len(args) != 1 {
+		fatal("usage: gvc replay <violation.json>")
+	}
+	root := "/verif"
+	var rep map[string]interface{}
+	if err := readJSON(args[0], &rep); err != nil {
+		fatal("%v", err)
+	}
+	prop, _ := rep["property"].(string)
+	obl, _ := rep["obligation"].(string)
+	fmt.Printf("property   %s\nobligation %s\nreason     %v\nposition   %v\nsolver     %v -> %v\n", prop, obl, rep["reason"], rep["position"], rep["solver"], rep["solver_status"])
+	if smt, _ := rep["smt2"].(string); smt != "" {
+		if _, err := os.Stat(smt); err == nil {
+			out, _ := exec.Command("z3-new", "-smt2", "-T:20", "smt.mbqi=false", smt).CombinedOutput()
+			fmt.Printf("query      %s: %s\n", smt, truncate(strings.SplitN(string(out), "\n", 2)[0], 200))
+		}
+	}
+	if m, ok := rep["candidate_model"].(string); ok {
+		fmt.Printf("candidate model (quantifier-free relaxation):\n%s\n", truncate(m, 1500))
+	}
+	ok, out := tryReplay(root, prop, obl, args[0])
+	if out == "" {
+		fmt.Println("replay     no replay registered for this obligation (no-failing-input-found)")
+		os.Exit(0)
+	}
+	fmt.Printf("replay output:\n%s\n", tail(out, 40))
+	if ok {
+		fmt.Println("replay     CONFIRMED on the real code")
+		os.Exit(1)
+	}
+	fmt.Println("replay     not reproduced on the current tree")
+	os.Exit(0)
 }
